@@ -26,7 +26,7 @@ MEvents(mm) == LET w == W(mm) h == H(mm) IN
   \cup {Ev("m", "xor", <<w + 1, h>>, ChunkRows(PatRows(1, w + 1, h)))}
   \cup {Ev("m", "setrow", <<y>>, <<Chunks(Pat(p, w))>>) : y \in Xs(h), p \in 1..3}
   \cup {Ev("m", "getrow", <<y, x>>, <<>>) : y \in Xs(h), x \in {-1, 0, 1, 32}}
-  \cup {Ev("m", op, <<v>>, <<>>) : op \in {"tostring", "reparse"}, v \in 0..2}
+  \cup {Ev("m", op, <<v>>, <<>>) : op \in {"tostring", "reparse"}, v \in 0..3}
   \cup {Ev("m", "get", <<w, 0>>, <<>>), Ev("m", "get", <<-1, 0>>, <<>>), Ev("m", "at", <<0, h>>, <<>>)}
 
 AEvents(ss) == LET n == Len(ss) IN
